@@ -1,8 +1,8 @@
-SPECIFICATION GenSpec
+SPECIFICATION Spec
 CONSTANTS
-  MaxSegs = 4
-  Kinds <- KindsBoth
-  Times <- TimesBindable
+  MaxSegs = 3
+  Kinds <- KindsLog
+  Times <- TimesHorizon
   Weights <- W1
   DistinctHi = FALSE
   Straddle = TRUE
@@ -11,15 +11,15 @@ CONSTANTS
   OpenWs <- Open0
   WithPq = FALSE
   MaxCrash = 1
-  MaxRepeat = 0
-  DetOrder = TRUE
-  Mults <- M1_12
-  Orgs <- Org0
+  MaxRepeat = 1
+  DetOrder = FALSE
+  Mults <- M1
+  Orgs <- Org07
   RewriteScratch = FALSE
   SortedDel = "scan"
   MetKeyWraps = TRUE
   SkipTooBig = TRUE
   PqIdsLoaded = FALSE
   InodeCleansDangling = FALSE
-CONSTRAINT Emit
+INVARIANTS TypeOK Consistent TimeExact OldestFirst Idempotent NoNeedlessDeletion
 CHECK_DEADLOCK FALSE
